@@ -283,7 +283,8 @@ struct HistOpt {
   size_t max_nodes = 120;      // keep documents small so that slots are recycled
   bool only_sized_strings = false;
   bool numeric_strings_heavy = false;  // C14: a quarter of the strings are number literals of every shape
-  bool int64 = true;           // false (ARDUINOJSON_USE_LONG_LONG=0): integers stay within int32/uint32
+  bool int64 = true;           // false (ARDUINOJSON_USE_LONG_LONG=0): integers stay within int32
+  bool float32_only = false;   // true (ARDUINOJSON_USE_DOUBLE=0): every generated floating-point value is exactly a float, inside the normal float range
 };
 
 inline std::string hist_key(Rng& r, const HistOpt& o) {
@@ -301,7 +302,7 @@ inline MVal hist_scalar(Rng& r, const HistOpt& o) {
   if (w == 5) { std::string s = strs[r.below(10)]; s += '\0'; s += "z"; return MVal::str(s); }
   if (w == 6) return MVal::raw(gen_raw_json(r));
   if (w == 7 && o.binext) { std::string p; size_t n = (size_t)r.below(20); for (size_t i = 0; i < n; i++) p += (char)r.below(256); return r.coin() ? MVal::bin(p) : MVal::extv((int8_t)r.range(-128, 127), p); }
-  GenOpt g; g.allow_float = true; g.max_str = 12; g.numeric_strings = false; g.allow_nonfinite = false; g.int64 = o.int64;
+  GenOpt g; g.allow_float = true; g.max_str = 12; g.numeric_strings = false; g.allow_nonfinite = false; g.int64 = o.int64; g.float32_only = o.float32_only;
   return gen_scalar(r, g);
 }
 
@@ -413,7 +414,7 @@ inline Op gen_op(Rng& r, const HistOpt& o, Model& m) {
   else if (w < 94 && o.deser) {
     op.k = r.coin() ? OpK::DeserJson : OpK::DeserMsgPack;
     op.t = hist_target(r, o, m, 2);
-    GenOpt g; g.max_depth = 2; g.max_width = 3; g.budget = 12; g.max_str = 8; g.numeric_strings = false; g.dup_keys = false; g.key_nul = false; g.allow_float = true; g.int64 = o.int64;
+    GenOpt g; g.max_depth = 2; g.max_width = 3; g.budget = 12; g.max_str = 8; g.numeric_strings = false; g.dup_keys = false; g.key_nul = false; g.allow_float = true; g.int64 = o.int64; g.float32_only = o.float32_only;
     MVal v = gen_value(r, g);
     if (op.k == OpK::DeserJson) {
       respell_floats(v, r);
